@@ -18,6 +18,12 @@
 #include <fcppt/algorithm/map_optional.hpp>
 #include <fcppt/algorithm/repeat.hpp>
 #include <fcppt/algorithm/binary_search.hpp>
+#include <fcppt/algorithm/equal_range.hpp>
+#include <fcppt/algorithm/find_by_opt.hpp>
+#include <fcppt/algorithm/generate_n.hpp>
+#include <fcppt/algorithm/unique_if.hpp>
+#include <fcppt/algorithm/map_concat.hpp>
+#include <fcppt/container/at_optional.hpp>
 #include <fcppt/loop.hpp>
 #include <fcppt/optional/object.hpp>
 #include <cstddef>
@@ -33,6 +39,7 @@ struct fixvec {
   iterator erase(const_iterator f, const_iterator l) { std::size_t const i = static_cast<std::size_t>(f - d), j = static_cast<std::size_t>(l - d); for (std::size_t k = j; k < n; ++k) d[i + (k - j)] = d[k]; n -= (j - i); return d + i; }
   iterator insert(const_iterator pos, int v) { std::size_t const i = static_cast<std::size_t>(pos - d); for (std::size_t k = n; k > i; --k) d[k] = d[k - 1]; d[i] = v; ++n; return d + i; }
   void push_back(int v) { d[n++] = v; } void reserve(size_type) {}
+  template <typename It> iterator insert(const_iterator, It first, It last) { std::size_t const at = n; for (; first != last; ++first) { d[n++] = *first; } return d + at; }   // only ever called with end()
 };
 extern "C" {
 unsigned vf_f2(unsigned elem, unsigned state);     // fold function
@@ -64,4 +71,10 @@ void vf_map_c(SRC, std::size_t *on, int *o){ MK; fixvec const r{fcppt::algorithm
 void vf_map_optional(SRC, std::size_t *on, int *o){ MK; fixvec const r{fcppt::algorithm::map_optional<fixvec>(c, [](int e){ return vf_pred(static_cast<unsigned>(e)) ? fcppt::optional::object<int>{static_cast<int>(vf_map(static_cast<unsigned>(e)))} : fcppt::optional::object<int>{}; })}; put(r, on, o); }
 void vf_repeat(unsigned cnt){ fcppt::algorithm::repeat(cnt, []{ vf_tick(); }); }
 long vf_binary_search(SRC, int x){ MK; auto const r = fcppt::algorithm::binary_search(c, x); return r.has_value() ? r.get_unsafe() - c.begin() : -1; }
+void vf_equal_range(SRC, int x, long *lo, long *hi){ MK; auto const r = fcppt::algorithm::equal_range(c, x); *lo = r.begin() - c.begin(); *hi = r.end() - c.begin(); }
+bool vf_find_by_opt(SRC, int *val){ MK; auto const r = fcppt::algorithm::find_by_opt(c, [](int e){ return vf_pred(static_cast<unsigned>(e)) ? fcppt::optional::object<int>{static_cast<int>(vf_map(static_cast<unsigned>(e)))} : fcppt::optional::object<int>{}; }); if (r.has_value()) *val = r.get_unsafe(); return r.has_value(); }
+void vf_generate_n(std::size_t cnt, std::size_t *on, int *o){ fixvec const r{fcppt::algorithm::generate_n<fixvec>(cnt, []{ return static_cast<int>(vf_map(7U)); })}; put(r, on, o); }
+void vf_unique_if(SRC, std::size_t *on, int *o){ MK; fcppt::algorithm::unique_if(c, [](int a, int b){ return (vf_f2(static_cast<unsigned>(a), static_cast<unsigned>(b)) & 1U) != 0U; }); put(c, on, o); }
+long vf_at_optional(SRC, std::size_t idx){ MK; auto const r = fcppt::container::at_optional(c, idx); return r.has_value() ? &r.get_unsafe().get() - c.begin() : -1; }
+void vf_map_concat_c(SRC, std::size_t *on, int *o){ MK; fixvec const r{fcppt::algorithm::map_concat<fixvec>(c, [](int e){ fixvec one; if (vf_pred(static_cast<unsigned>(e))) one.push_back(static_cast<int>(vf_map(static_cast<unsigned>(e)))); return one; })}; put(r, on, o); }
 }
